@@ -107,6 +107,11 @@ func c01Sinks() []c01Sink {
 		{name: "attr-interp", attr: "title", tpl: func(a, b string) string { return `<p data-m="1" title="` + a + `{{ v }}` + b + `">t</p>` }},
 		{name: "attr-bound", attr: "title", tpl: func(a, b string) string { return `<p data-m="1" :title="v" class="` + a + `">t</p>` }},
 		{name: "attr-bound-class-merge", attr: "class", tpl: func(a, b string) string { return `<p data-m="1" class="k" :class="v">t</p>` }},
+		// the static class has a mustache of its own: the bound value joins it after that was filled in, and is not read again
+		{name: "attr-bound-class-merge-interp", attr: "class", tpl: func(a, b string) string { return `<p data-m="1" class="k {{ kind }}" :class="v">t</p><p>after</p>` }},
+		{name: "attr-bound-class-merge-interp-loop", attr: "class", tpl: func(a, b string) string {
+			return `<div v-for="x in vs"><p data-m="1" class="{{ kind }} k" v-bind:class="x">t</p></div><p>after</p>`
+		}},
 		{name: "if-branch", tpl: func(a, b string) string {
 			return `<div v-if="yes"><p data-m="1">` + a + `{{ v }}` + b + `</p></div><div v-else>no</div>`
 		}},
@@ -258,7 +263,7 @@ func c01RenderAny(files map[string]string, tpl string, v any, page bool) (string
 				err = fmt.Errorf("PANIC %v", x)
 			}
 		}()
-		data := map[string]any{"v": v, "vs": []any{v}, "yes": true, "no": false, "secret": "CANARY", "two": []any{1, 2}}
+		data := map[string]any{"v": v, "vs": []any{v}, "yes": true, "no": false, "secret": "CANARY", "two": []any{1, 2}, "kind": "note"}
 		if page {
 			err = vuego.NewFS(m).Load("page.vuego").Fill(data).Render(context.Background(), &limitWriter{w: &buf, max: 1 << 20})
 		} else {
@@ -494,6 +499,10 @@ func runC01(r *Run) {
 					want = v
 				case "attr-bound-class-merge":
 					want = "k " + v
+				case "attr-bound-class-merge-interp":
+					want = "k note " + v
+				case "attr-bound-class-merge-interp-loop":
+					want = "note k " + v
 				case "include-bound-mustache-prop":
 					want = "[" + v + "]"
 				case "include-static-prop", "include-bound-prop", "slot-twice-include-prop", "slot-in-loop-include-prop", "include-in-loop", "include-nested-prop", "layout-variable":
